@@ -72,6 +72,13 @@ SaveLoad(s, P) == Res("ok", {[s EXCEPT !.slots[P] = DropTrailing0(@)]}, 0)
 LoadNoOutput(s, P) ==
   Res("ok", {[s EXCEPT !.slots[P] = DropTrailing0(IF Len(@) >= 1 THEN [@ EXCEPT ![1] = 0] ELSE @)]}, 0)
 
+(* project.modules[i] = None for the position of module m (a user clearing a position by hand): the position is empty, the module *)
+(* object keeps naming the project and its old index until it is attached again (Attach then treats it like any module of P that *)
+(* is not in the list: lowest empty position, else the end)                                                                     *)
+RemoveMod(s, P, m) ==
+  IF Has(s.slots[P], m) THEN Res("ok", {[s EXCEPT !.slots[P] = [@ EXCEPT ![IndexOf(s.slots[P], m)] = 0]]}, 0) ELSE Res("ok", {s}, 0)
+Stale(s) == {m \in DOMAIN s.parent : m > 2 /\ s.parent[m] # 0 /\ ~Has(s.slots[s.parent[m]], m)}
+
 (* note.mod = m *)
 SetNoteMod(s, q, m) ==
   IF s.parent[m] = 0 THEN Res("ModuleOwnershipError", {s}, 0)
@@ -104,7 +111,7 @@ CoherentH(s) ==
   /\ \A P \in 1..2 : \A i \in 1..Len(s.slots[P]) :
         LET m == s.slots[P][i] IN m # 0 => s.index[m] = i - 1 /\ s.parent[m] = P
   /\ \A P \in 1..2 : ~Headless(s, P) => (s.slots[P][1] = P /\ s.output[P] = s.slots[P][1])
-  /\ \A m \in DOMAIN s.parent : s.parent[m] # 0 /\ ~(m <= 2 /\ Headless(s, m)) => Has(s.slots[s.parent[m]], m)
+  /\ \A m \in DOMAIN s.parent : s.parent[m] # 0 /\ ~(m <= 2 /\ Headless(s, m)) /\ m \notin Stale(s) => Has(s.slots[s.parent[m]], m)
   /\ \A P \in 1..2 : \A i, j \in 1..Len(s.slots[P]) : i # j /\ s.slots[P][i] # 0 => s.slots[P][i] # s.slots[P][j]
   /\ \A q \in DOMAIN s.pproj : s.pproj[q] # 0 <=> \E P \in 1..2 : Has(s.pats[P], q)
   /\ \A q \in DOMAIN s.pproj : s.pproj[q] # 0 => Has(s.pats[s.pproj[q]], q)
